@@ -921,6 +921,37 @@ def ob_he_default_getter():
     return Verdict(DISCHARGED, backend="native")
 
 
+def ob_setc_keeps_S():
+    """Anisotropic.Set_C(C2, update_S=False) (the compliance is left to the caller) is a change of the law like any other: the elastic simulation observing it assembles the
+    stiffness of C2 at its next read, as a simulation built on C2 does"""
+    import contextlib, io
+    from EasyFEA import Models, Simulations
+    coords, connect = patches.star_patch("QUAD4")
+    C1 = np.asarray(Models.Elastic.Isotropic(2, E=3.0, v=0.25, planeStress=True).C)
+    C2 = np.asarray(Models.Elastic.Isotropic(2, E=7.0, v=0.1, planeStress=True).C)
+
+    def K_of(sim):
+        return np.asarray(sim.Get_K_C_M_F()[0].toarray())
+    with contextlib.redirect_stdout(io.StringIO()):
+        mesh = patches.real_mesh("QUAD4", coords, connect)
+        law = Models.Elastic.Anisotropic(2, C1, useVoigtNotation=False)
+        sim = Simulations.Elastic(mesh, law)
+        K_of(sim)
+        n = 0
+        for upd in (False, True, False):
+            Cn = C2 if n % 2 == 0 else C1
+            law.Set_C(Cn, useVoigtNotation=False, update_S=upd)
+            got = K_of(sim)
+            fresh = K_of(Simulations.Elastic(patches.real_mesh("QUAD4", coords, connect), Models.Elastic.Anisotropic(2, Cn, useVoigtNotation=False)))
+            n += 1
+            e = float(np.abs(got - fresh).max() / np.abs(fresh).max())
+            if e > 1e-12:
+                raise Refuted(f"Elastic simulation on an Anisotropic law: after Set_C(new matrix, update_S={upd}) (call #{n}) the stiffness read through Get_K_C_M_F differs from that of a simulation built on the "
+                              f"new matrix by {e:.3e} (relative): the simulation was not told", cex=dict(history=["Get_K_C_M_F", f"Set_C(C, update_S={upd})", "Get_K_C_M_F"], update_S=upd),
+                              signature=f"history:Set_C:update_S={upd}", replay=dict(confirmed=True, rel_diff=e))
+    return Verdict(DISCHARGED, backend="native", sub=n)
+
+
 def ob_he_system_stale(what):
     """a hyperelastic simulation whose assembled system was read, then (a) the time scheme is switched (the local system holds the inertia terms of the scheme) or
     (b) the direction of the active stress is registered anew: the public getter hands out the system a simulation taken through the same steps WITHOUT the
@@ -1599,6 +1630,8 @@ def build(tier, seed):
     obs.append(Ob("C14.I_cache.handmade", ob_cache_handmade, (), "E", ("EasyFEA/**::`if self.X is None: self.X = ...`",), clause="a field a hand-written memo depends on is never stored without storing the memo again (every class of the package)", timeout=600))
     obs.append(Ob("C14.history.hyperelastic.getter", ob_he_default_getter, (), "X", ("EasyFEA/Simulations/_simu.py::_Simu.Get_K_C_M_F",), bound="one dynamic hyperelastic step",
                   clause="after the update flag is raised the public getter assembles the system of the simulation's problem type"))
+    obs.append(Ob("C14.history.elastic.Set_C.update_S", ob_setc_keeps_S, (), "X", ("EasyFEA/Models/Elastic/_laws.py::Anisotropic.Set_C",), bound="one 4-element patch, three replacements of the matrix", timeout=300,
+                  clause="Set_C with update_S=False or True tells the observers: the next assembled stiffness is that of the new matrix"))
     obs.append(Ob("C14.history.behavior.elastic.Set_C", ob_behavior_elastic_change, ("auto", True), "X", ("EasyFEA/Models/Elastic/_laws.py::Anisotropic.Set_C", "EasyFEA/Models/InElastic/_behavior.py::Behavior._Update"),
                   bound="one von Mises / linear hardening behaviour on an Anisotropic elastic law, 6 strain states, the matrix replaced three times through Set_C", timeout=300,
                   clause="after Set_C on the elastic law of an inelastic behaviour, Integrate returns what a behaviour built on the new matrix returns"))
